@@ -561,9 +561,13 @@ fn gen_payload(u: &mut U, what: &str) -> Vec<u8> {
         "transaction" => valid_input("transaction", u),
         "typeddata" => valid_input("typeddata", u),
         "hex" => {
-            let n = u.below(100);
-            let b = u.bytes(n);
-            format!("{}{}", ["0x", "", "0X"][u.below(3)], hex_lower(&b)).into_bytes()
+            // one hex input in eight is longer than one or two read chunks (4 KiB, 8 KiB), with 0-3 blanks in
+            // front so that digit pairs straddle the chunk boundaries
+            let long = u.ratio(1, 8);
+            let n = if long { 4100 + u.below(6000) } else { u.below(100) };
+            let b = if long { crate::engine::Prng::new(u.u64()).bytes(n) } else { u.bytes(n) };
+            let lead = if long { " ".repeat(u.below(4)) } else { String::new() };
+            format!("{lead}{}{}", ["0x", "", "0X"][u.below(3)], hex_lower(&b)).into_bytes()
         }
         _ => {
             if u.ratio(1, 4) {
